@@ -1123,3 +1123,28 @@ def expand_helpers(prog, t, names=None, _depth=0):
         return expand_helpers(prog, subst_params(rt[0][1], mapping), names,
                               _depth + 1)
     return map_term(t, f)
+
+
+POS = ("POS",)
+
+
+def align_positions(t):
+    """Within one loop pass, make the ways of addressing "the current
+    element" comparable: zip-element i of (A, B, ..) is A[POS] / B[POS],
+    the element of enumerate(X) / X is X[POS] and its index is POS.  Only
+    the outermost element references are rewritten (the iterables
+    themselves are left as they are)."""
+    if not isinstance(t, tuple) or not t:
+        return t
+    if t[0] == "zipelem" and len(t) == 3 and isinstance(t[1], int) and \
+            t[1] < len(t[2]):
+        return ("sub", t[2][t[1]], POS)
+    if t[0] == "elem" and len(t) == 2:
+        it = t[1]
+        if it[0] == "call" and it[1] == "builtins.enumerate" and it[2]:
+            it = it[2][0]
+        return ("sub", it, POS)
+    if t[0] == "idx" and len(t) == 2:
+        return POS
+    return tuple(align_positions(x) if isinstance(x, tuple) else x
+                 for x in t)
